@@ -59,12 +59,15 @@ Fixpoint digits_val (acc : Z) (s : list N) : option Z :=
   end.
 
 (* strconv.Atoi: optional '+' or '-', then one or more ASCII digits, value within int *)
+Definition split_sign (s : list N) : bool * list N :=
+  match s with
+  | 43 :: r => (false, r)
+  | 45 :: r => (true, r)
+  | _ => (false, s)
+  end.
+
 Definition atoi (s : list N) : option Z :=
-  let '(neg, ds) := match s with
-                    | 43 :: r => (false, r)
-                    | 45 :: r => (true, r)
-                    | _ => (false, s)
-                    end in
+  let '(neg, ds) := split_sign s in
   match ds with
   | [] => None
   | _ :: _ =>
